@@ -36,6 +36,15 @@ MISSED = {  # seeded change -> what was added to the check after it was missed
  "C16-e": "encoders handed parts of the wrong size must refuse or still round-trip",
  "C17-f": "blocks entered while the caller is handling an unrelated exception",
  "C18-f": "from_db with an out-of-range key_size",
+ # round 4 (the checks had been strengthened from the round-4 brief before the changes arrived)
+ "C01-h": "databases that are dict SUBCLASSES overriding the item protocol (dict.update / dict.get go around it)",
+ "C04-h": "C04 schedules over such a dict subclass",
+ "C05-h": "C05 cases over such a dict subclass",
+ "C02-h": "the live trie written while an at_root snapshot of itself is open",
+ "C07-g": "savepoint attempts inside C07's batches; the OUTER trie's reference counts compared too",
+ "C09-h": "a walker that keeps the root node object and re-reads it only when root_hash changes",
+ "C16-g": "decode_node(0x80): the blank node as a database holds it",
+ "C16-h": "encoded paths and node items held in bytearray / memoryview",
 }
 print("| id | change (abridged) | needs | monitor(s) that fired | first run |")
 print("|---|---|---|---|---|")
